@@ -1,5 +1,8 @@
 mod engine;
+mod history;
 mod opgen;
+mod view;
+mod world;
 mod props;
 mod wasmutil;
 
@@ -14,6 +17,9 @@ fn dispatch(id: &str, tier: Tier) -> i32 {
     match id {
         "C01" => props::c01::check("C01", tier),
         "C02" => props::c01::check("C02", tier),
+        "C06" => props::hist::check_c06(tier),
+        "C07" => props::hist::check_c07(tier),
+        "C08" => props::hist::check_c08(tier),
         "C24" => props::c24::check(tier),
         _ => {
             out(&format!("MACHINERY-ERROR: no check registered for {}", id));
@@ -26,6 +32,7 @@ fn replay_dispatch(id: &str, family: &str, case: &serde_json::Value) -> Option<V
     let _ = family;
     match id {
         "C01" | "C02" => Some(props::c01::replay(id, case)),
+        "C06" | "C07" | "C08" => Some(props::hist::replay(id, case)),
         "C24" => Some(props::c24::replay(case)),
         _ => None,
     }
@@ -56,7 +63,13 @@ fn main() {
                 }
                 i += 1;
             }
-            let code = dispatch(&id, tier);
+            let code = match catch(|| dispatch(&id, tier)) {
+                Ok(c) => c,
+                Err(p) => {
+                    out(&format!("MACHINERY-ERROR: harness panic: {} at {}:{}", p.msg, p.file, p.line));
+                    2
+                }
+            };
             std::process::exit(code);
         }
         "replay" => {
